@@ -447,6 +447,24 @@ func runC17(r *engine.Run) {
 		if err != nil || !bytes.Equal(got[:], key) {
 			c.Fail("keyenvelope/unwrap", fmt.Sprintf("Unwrap = %x err %v", got[:], err), nil)
 		}
+		// an envelope is a value the caller keeps: an Unwrap that is refused (wrong KEK, no KEK) leaves it
+		// as it was, and the right KEK opens it afterwards
+		before := deepPrint(env)
+		wrongKEK := append([]byte(nil), kek...)
+		wrongKEK[len(wrongKEK)-1] ^= 0x80
+		for _, bad := range [][]byte{wrongKEK, nil} {
+			if _, err := env.Unwrap(bad); err == nil {
+				c.Fail("keyenvelope/unwrap-succeeds-iff-integrity-check/reused-envelope", fmt.Sprintf("Unwrap with a KEK of %d bytes that is not the wrapping KEK succeeds", len(bad)), nil)
+			}
+			if after := deepPrint(env); after != before {
+				c.Fail("keyenvelope/refused-unwrap-changes-the-envelope", fmt.Sprintf("envelope before the refused Unwrap %s, after it %s", before, after), nil)
+				break
+			}
+			if got, err := env.Unwrap(kek); err != nil || !bytes.Equal(got[:], key) {
+				c.Fail("keyenvelope/unwrap-after-refused-unwrap", fmt.Sprintf("after a refused Unwrap the wrapping KEK gives %x err %v, wrapped key %x", got[:], err, key), nil)
+				break
+			}
+		}
 		// JSON form
 		j, _ := json.Marshal(env)
 		var e2 backend.KeyEnvelope
